@@ -133,6 +133,16 @@ class ModelProc:
             self.p.kill()
 
 
+# model executables (coq/bin/<name>) each property's check runs; their Extract*.v closures are built with the
+# property file.  A property not listed here falls back to building the whole development.
+PROP_BINS = {
+    "C01": ["monitor"], "C02": ["monitor"], "C03": ["monitor"], "C04": ["monitor"], "C12": ["monitor"],
+    "C05": ["monitor", "resolver"], "C06": ["monitor", "cursor"],
+    "C08": ["codec"], "C09": ["store"], "C11": ["state", "stateguard"], "C13": ["path"], "C16": ["prov"], "C17": ["sched"],
+    "C18": ["loop", "notify"], "C19": ["cache"], "C20": ["smart"], "C15": ["thread", "monitor"], "C14": ["event", "monitor"], "C10": ["fault", "monitor"],
+}
+
+
 # ---------------------------------------------------------------- check context
 class Ctx:
     def __init__(self, prop, tier, seed, replay=None):
@@ -177,9 +187,12 @@ class Ctx:
             self.known_hits.append(k)
 
     # ---- Coq gate
-    def coq_gate(self, prop_file=None, allowed_axioms=()):
-        """lint + incremental build + forced kernel re-check of the property file."""
+    def coq_gate(self, prop_file=None, allowed_axioms=(), bins=None):
+        """lint + regeneration of every source-derived .v file + incremental build of what THIS property needs
+        (dependency closure of its property file and of the model executables it runs) + forced kernel re-check
+        of the property file."""
         prop_file = prop_file or ("Prop" + self.prop)
+        bins = PROP_BINS.get(self.prop) if bins is None else bins
         cov = self.coverage
         bad = build.lint()
         if bad:
@@ -187,13 +200,16 @@ class Ctx:
                            dict(kind="lint", items=bad), no_input=True, theorem="lint")
             return None
         try:
-            build.ensure()
+            if bins is None:
+                build.ensure()          # unknown property: whole development
+            else:
+                build.ensure_scope([prop_file], bins=bins)
         except build.BuildError as e:
-            self.violation("the Coq development no longer builds", dict(kind="build", log=str(e)[-4000:]),
-                           no_input=True, theorem="make (whole development)")
+            self.violation("the Coq files this property depends on no longer build", dict(kind="build", log=str(e)[-4000:]),
+                           no_input=True, theorem="make theories/%s.vo + model executables %s" % (prop_file, bins))
             return None
         g = build.prop_gate(prop_file)
-        cov["checker_cmd"] = "coq_makefile -f _CoqProject -o Makefile && make -j16 (full .vo); forced re-check: rm theories/%s.vo && make theories/%s.vo" % (prop_file, prop_file)
+        cov["checker_cmd"] = "setup: coq_makefile -f _CoqProject -o Makefile && make -j16 (full .vo build of the whole development); every run: regenerate source-derived .v files, make theories/%s.vo (+ Extract closures of %s), then forced kernel re-check: rm theories/%s.vo && make theories/%s.vo" % (prop_file, bins, prop_file, prop_file)
         cov["obligations"] = len(g["theorems"])
         ok_thms = []
         allowed = set(ALLOWED_AXIOMS) | set(allowed_axioms)
@@ -237,11 +253,12 @@ class Ctx:
         ev = dict(property_id=self.prop, tier=self.tier, seed=self.seed, level="proof", coverage=cov,
                   assumptions=list(self.assumptions) + list(extra_assumptions),
                   wall_s=round(time.time() - self.t0, 2), violations=len(self.violations))
-        os.makedirs(EVIDENCE, exist_ok=True)
-        tmp = os.path.join(EVIDENCE, self.prop + ".json.tmp")
-        with open(tmp, "w") as f:
-            json.dump(ev, f, indent=1, default=repr)
-        os.replace(tmp, os.path.join(EVIDENCE, self.prop + ".json"))
+        if not self.replay:      # a --replay run re-executes one stored case: it is not evidence of a tier run
+            os.makedirs(EVIDENCE, exist_ok=True)
+            tmp = os.path.join(EVIDENCE, self.prop + ".json.tmp")
+            with open(tmp, "w") as f:
+                json.dump(ev, f, indent=1, default=repr)
+            os.replace(tmp, os.path.join(EVIDENCE, self.prop + ".json"))
         for k in self.known_hits:
             print("KNOWN-FINDING: property=%s %s" % (self.prop, k["what"]))
         for path, what, no_input in self.violations:
